@@ -21,7 +21,14 @@ COQ = os.path.join(ROOT, "coq")
 BUILD = os.path.join(ROOT, "build")
 REPLAYS = os.path.join(ROOT, "replays")
 EVID = os.path.join(ROOT, "evidence")
-ENV = dict(os.environ, GOFLAGS="-mod=mod", GOPROXY="off")
+import hashlib
+VERIF_REPO = os.environ.get("VERIF_REPO", "/repo").rstrip("/") or "/repo"
+SFX0 = None
+SFX = "" if VERIF_REPO == "/repo" else "_" + hashlib.md5((VERIF_REPO + "\n").encode()).hexdigest()[:8]
+ENV = dict(os.environ, GOFLAGS="-mod=mod", GOPROXY="off", VERIF_REPO=VERIF_REPO)
+if SFX:   # experiments against a scratch worktree never touch the committed evidence
+    EVID = os.path.join(BUILD, "evidence" + SFX)
+    REPLAYS = os.path.join(BUILD, "replays" + SFX)
 ENV.pop("GOTOOLCHAIN", None)   # /repo needs go1.25.0: only GOTOOLCHAIN=auto finds it
 ENV.pop("GOSUMDB", None)
 
@@ -162,7 +169,7 @@ class Check:
     def run_go(self, runner, cases, timeout=1800, binary=None):
         """cases: list of JSON-serialisable values. Returns list of outcome dicts."""
         data = "\n".join(json.dumps(c, separators=(",", ":")) for c in cases) + "\n"
-        p = subprocess.run([os.path.join(BUILD, "harness_" + (binary or self.pid.lower())), runner], input=data,
+        p = subprocess.run([os.path.join(BUILD, "harness_" + (binary or self.pid.lower()) + SFX), runner], input=data,
                            stdout=subprocess.PIPE, stderr=subprocess.PIPE, text=True,
                            timeout=timeout, env=ENV)
         if p.returncode != 0:
